@@ -33,4 +33,28 @@ TEXT = {
         "design_ref": "§8 C09", "note": "trusts the callback mirror and the model",
         "technique": _SIM + "callback-log vs model conformance over histories",
     },
+    "C10": {
+        "text": "Seeded histories over a colliding router-key universe (AS numbers sharing hash buckets, shared SKIs, 3 sources, sizes crossing "
+                "the hash table's grow/shrink steps); after operations every (AS, SKI) lookup, every SKI lookup and the callback log are "
+                "compared with a std::set model.",
+        "design_ref": "§8 C10", "note": "trusts the std::set model; spki_table has no enumerator, so contents are compared through the two lookup functions over the whole key universe of the plan",
+        "technique": _SIM + "model-based conformance of operation histories with shrinking",
+    },
+    "C16": {
+        "text": "Schedule exploration: one writer and 1-3 readers on real threads under the seeded baton scheduler with preemption at "
+                "basic-block granularity inside the library. Every read is checked for linearizability against the totally ordered writer "
+                "states; the same plans run in a ThreadSanitizer build in which the scheduler is invisible to TSan, so a report on table "
+                "state is a race not ordered by the library's own locks. Sampling of schedules, not enumeration.",
+        "design_ref": "§8 C16, §3.3", "note": "single writer; TSan happens-before detection on the explored schedules only; accesses made through libc mem* interceptors are not tracked",
+        "technique": _SIM + "seeded schedule exploration, linearizability checker + ThreadSanitizer as happens-before oracle",
+    },
+    "C18": {
+        "level_override": "fault_enumeration",
+        "text": "Enumeration of allocation sites per base history: the k-th allocation call fails, for every k (thorough) or a stratified sample "
+                "(quick), each fault attached to the operation it hits so that failing plans shrink. Oracles: no crash, error => no partial "
+                "effect, later operations conform to the model; failure-free runs must return every block to the configured allocator "
+                "(libc free of a configured block is intercepted) and leave the ledger empty.",
+        "design_ref": "§8 C18", "note": "one failing allocation per run; base histories are sampled; known finding: unchecked allocations inside third-party tommy_hashlin",
+        "technique": _SIM + "exhaustive single-fault injection over the allocation calls of sampled histories",
+    },
 }
